@@ -359,7 +359,13 @@ V("incmin-var-as-dom", "break", ["C03", "C13"], SV,
 V("solution-no-offset", "break", ["C01", "C13"], SV,
   "return shr_domains_stack[stacks_top[0], dom_indices_arr, MIN] + dom_offsets_arr", "return shr_domains_stack[stacks_top[0], dom_indices_arr, MIN]",
   "solution vector without offsets", "get_solution")
-V("solved-level0", "break", ["C01"], SV,
+V("solved-level-below", "break", ["C01", "C02"], SV,
+  "np.equal(shr_domains_stack[stacks_top[0], :, MIN], shr_domains_stack[stacks_top[0], :, MAX])", "np.equal(shr_domains_stack[stacks_top[0] + 1, :, MIN], shr_domains_stack[stacks_top[0] + 1, :, MAX])",
+  "solved test looks at the level above the current one (stale data of an abandoned branch)", "is_solved")
+V("solved-level0-valid", "neutral", ["C01"], SV,
+  "np.equal(shr_domains_stack[stacks_top[0], :, MIN], shr_domains_stack[stacks_top[0], :, MAX])", "np.equal(shr_domains_stack[0, :, MIN], shr_domains_stack[0, :, MAX])",
+  "the same edit as solved-level0 seen from C01: what is ground at the root is ground at every level, nothing invalid is reported")
+V("solved-level0", "break", ["C02", "C03"], SV,
   "np.equal(shr_domains_stack[stacks_top[0], :, MIN], shr_domains_stack[stacks_top[0], :, MAX])", "np.equal(shr_domains_stack[0, :, MIN], shr_domains_stack[0, :, MAX])",
   "solved test looks at level 0", "is_solved")
 V("reset-partial-requeue", "break", ["C01", "C03", "C08"], BS,
@@ -934,3 +940,10 @@ V("queens-workers-whole-problem", "break", ["C12"], "nucs/examples/queens/__main
 V("bc-clears-wakeup-column", "break", ["C01", "C03", "C13", "C15"], BC, "            not_entailed_propagators_stack[top, prop_idx] = False\n",
   "            not_entailed_propagators_stack[top, prop_idx] = False\n            if top == 0:\n                triggers[:, prop_idx] = 0\n",
   "an entailed propagator's column of the problem's wake-up table cleared 'at the root': it stays deaf after the next restart", "bound_consistency_algorithm")
+V("solve-one-overflow-returns-none", "break", ["C19", "C02"], BS,
+  "                raise IndexError(\"The choice points stack is full, please increase stack_max_height\")\n", "                return None\n",
+  "no room for a push: the search returns like an exhausted one, without a mark", "solve_one")
+V("solve-passes-queue-as-flags", "break", ["C02"], BS, None, None, "solve() hands the queue array where the enabled-flags stack is expected (and vice versa)", "BacktrackSolver.solve",
+  edits=[{"old": "                self.not_entailed_propagators_stack,\n                self.dom_update_stack,\n                self.stacks_top,\n                self.triggered_propagators,\n                self.consistency_alg_idx,\n",
+          "new": "                self.triggered_propagators,\n                self.dom_update_stack,\n                self.stacks_top,\n                self.not_entailed_propagators_stack,\n                self.consistency_alg_idx,\n",
+          "within": "def solve(self)"}])
